@@ -12,5 +12,11 @@ TEXT = {
   "note": "Trusted: Lean kernel; tools/extract; VerifLex hook; the whole-lexer position invariant is not yet a single theorem (closed-form lemmas + correspondence); parser/execution error positions not yet covered.",
   "technique": "Lean 4 closed-form position theorems + regenerated tables + exhaustive differential lexing with position oracle",
  },
+ "C17": {
+  "text": "Theorems in Lean 4, for every byte string: escape's five sequential replacements equal one per-byte substitution (escapeHtml_eq_flatMap), its output contains none of < > \" ' (escape_no_special), is a sequence of entity chunks and harmless single bytes so every & starts an entity (escape_amp_entities), and HTML-unescaping gives back the input (escape_roundtrip); addslashes adds exactly one backslash before \\ \" ' and nothing else, and is invertible (addslashes_exact, addslashes_roundtrip); urlencode output is query-safe (urlencode_safe); one pass of striptags leaves no '<' followed by '>' (striptags_no_tag); safe is the identity (safe_identity). The replacement chains and the IRI set are regenerated from filters_builtin.go and checked equal to the modelled ones. escapejs/iriencode/urlencode round-trips: model tied by correspondence and judged by the harness's own decoders (no theorem yet).",
+  "ref": "DESIGN.md §6 C17",
+  "note": "Trusted: Lean kernel; tools/extract (Replace chains, IRI set); model of url.QueryEscape/utf8 decoding; direct decoders in the harness.",
+  "technique": "Lean 4 theorems on byte-string filter models + regenerated replacement tables + differential ApplyFilter + decoder oracles",
+ },
 }
 PENDING = {}
